@@ -2,6 +2,7 @@ package checks
 
 import (
 	"fmt"
+	"strings"
 	"time"
 
 	vmcommon "github.com/ElrondNetwork/elrond-vm-common"
@@ -194,6 +195,20 @@ func scheduleAlphabet() []namedSchedule {
 		d[vmcommon.BaseOperationCostString][f] = 9
 		out = append(out, namedSchedule{"flat7[" + f + "=9]", d})
 	}
+	// accepted schedules that carry entries this library does not know (a schedule file newer than
+	// the library): every known field is present and non-zero, so they are in force
+	{
+		x := world.PrimeSchedule(2).Clone()
+		x[vmcommon.BaseOperationCostString]["GetCode"] = 1000
+		x[vmcommon.BaseOperationCostString]["FutureOpcode"] = 7
+		out = append(out, namedSchedule{"S3+unknown-base-entries", x})
+		y := world.PrimeSchedule(1).Clone()
+		y[vmcommon.BuiltInCostString]["ESDTNFTFutureFunction"] = 12345
+		out = append(out, namedSchedule{"S2+unknown-builtin-entry", y})
+		z := world.PrimeSchedule(0).Clone()
+		z["ElrondAPICost"] = map[string]uint64{"GetSCAddress": 100}
+		out = append(out, namedSchedule{"S1+unknown-section", z})
+	}
 	noBI := s2.Clone()
 	delete(noBI, vmcommon.BuiltInCostString)
 	noBO := s2.Clone()
@@ -210,6 +225,15 @@ func C16(tier Tier) int {
 	const P = "C16"
 	alphabet := scheduleAlphabet()
 	classes := pricedClasses()
+	// the forwarding classes again with locked gas (an input field the price does not depend on)
+	for _, pc := range pricedClasses() {
+		if strings.Contains(pc.name, "call") || strings.Contains(pc.name, "cross-shard") || strings.HasPrefix(pc.name, "ESDTBurn") || pc.name == "SetUserName" {
+			l := pc
+			l.name += "[gasLocked=700]"
+			l.act.GasLocked = 700
+			classes = append(classes, l)
+		}
+	}
 	maxLen := 2
 	if tier.Thorough() {
 		maxLen = 3
